@@ -464,9 +464,13 @@ Inv_TraceFaithful ==
        /\ (act.op = "IterRead" /\ res.pan = "" /\ res.r # None) =>
              res.tr = <<<<"iterKey", TKey(res.r[1][1]), <<>>>>, <<"iterValue", <<>>, res.r[1][2]>>>>
        /\ (act.op \in {"IterAll", "IterOpen", "IterNext", "IterRead"}) => \A j \in 1..Len(res.tr) : res.tr[j][1] \in {"iterKey", "iterValue"}
-       /\ (act.op = "IterAll" /\ res.pan = "") =>            \* every item's key and value are recorded, in order
-             LET kv == res.tr IN
-             \A j \in 1..Len(res.r) : \E a, b \in 1..Len(kv) : a < b /\ kv[a] = <<"iterKey", TKey(res.r[j][1]), <<>>>> /\ kv[b] = <<"iterValue", <<>>, res.r[j][2]>>
+       /\ (act.op = "IterAll" /\ res.pan = "") =>            \* every item's key and value are recorded, first things first
+             LET loggedK == {res.tr[j][2] : j \in {x \in 1..Len(res.tr) : res.tr[x][1] = "iterKey"}}
+                 loggedV == {res.tr[j][3] : j \in {x \in 1..Len(res.tr) : res.tr[x][1] = "iterValue"}}
+             IN /\ \A j \in 1..Len(res.r) : TKey(res.r[j][1]) \in loggedK /\ res.r[j][2] \in loggedV
+                /\ Len(res.tr) >= 2 * Len(res.r)
+                /\ res.r # <<>> => \E x \in 1..Len(res.tr) : res.tr[x] = <<"iterKey", TKey(res.r[1][1]), <<>>>>
+                                                             /\ \A y \in 1..(x - 1) : res.tr[y][1] # "iterKey"
        /\ (act.op \in {"Get", "Has", "Set", "Delete"}) => Len(res.tr) <= 1
 
 \* res/act are outside the VIEW and TLC evaluates INVARIANTS only on states whose view is new, so the
